@@ -24,6 +24,13 @@ THEOREMS = {
         "MG.Eng.write_frames_position",
         "MG.Eng.write_frames_disjoint_window",
     ],
+    "MG.Proofs.Lemmas.InPlaceView": [
+        "MG.C04V.inplace_through_view_refines_numpy",
+        "MG.C04V.mkDupGraph_one_view",
+        "MG.C04V.mutate_two_eq",
+        "MG.C04V.stage8_spec",
+        "MG.C04V.stage12_spec",
+    ],
     "MG.Proofs.Lemmas.InPlaceRefine": [
         "MG.C04R.inplace_on_owner_refines_numpy_general",
         "MG.C04R.inplace_on_owner_refines_numpy",
@@ -401,13 +408,19 @@ MANIFEST = {
             "views, with any operands (tensors, itself included, and literals — ndarrays / Python scalars) and any kernel: if the NumPy-level statement yields `vals` "
             "then the update succeeds and the same tensor id reads `vals`, keeps its flag and owns its memory, no buffer "
             "that existed before is written and every other tensor keeps its array and flag "
-            "(inplace_on_owner_refines_numpy_general, via the closed form finalHL of the result heap). "
+            "(inplace_on_owner_refines_numpy_general, via the closed form finalHL of the result heap). And for an update "
+            "whose target is the one live view v = vf(b) of such a tensor b (any view op NumPy serves as a view, with a "
+            "window of pairwise distinct positions): the update succeeds, v reads the written values and is still a view "
+            "of b, b reads its old values with exactly v's window overwritten, and nothing else changes "
+            "(inplace_through_view_refines_numpy: DuplicatingGraph with two placeholders, replay on the copy, UnView, "
+            "re-creation of the view). "
             "The direct oracle executes the same statements on plain ndarrays.",
     "note": "Trusted: Lean kernel, standard axioms, the correspondence harness; Owner tensors are C- or "
             "Fortran-ordered; np.copy's 'K' layout is modelled and tied to NumPy; the 'K'-order *result* layout of element-wise "
             "kernels is not modelled (reshape is generated only on tensors whose strides the model knows). The end-to-end "
             "refinement 'heap after an in-place update = NumPy buffer write' is proved for a tensor without live views "
-            "(inplace_on_owner_refines_numpy); for a whole view forest it is validated by correspondence + NumPy twin on "
+            "(inplace_on_owner_refines_numpy_general) and for a base with one live view updated through that view "
+            "(inplace_through_view_refines_numpy); for a general view forest (several views, views of views, where= masks) it is validated by correspondence + NumPy twin on "
             "every run, not proved (named gap inplace_refines_numpy_forest). `.shape =` followed by in-place updates is false of the unchanged "
             "code (two known findings); advanced-index assignment whose value aliases the target is excluded "
             "(NumPy's own result is order-dependent there).",
